@@ -105,6 +105,20 @@ func runC08(r *Run, p *Prog) {
 		for _, fd := range bodies {
 			cnt += hasOmit(fd.Body)
 			ast.Inspect(fd.Body, func(n ast.Node) bool {
+				// tagless switch form: `case <field>.Type.Kind == TypeMaybe:` holds the text
+				if cc, isCC := n.(*ast.CaseClause); isCC && len(cc.List) == 1 {
+					nOmit := 0
+					for _, st := range cc.Body {
+						nOmit += hasOmit(st)
+					}
+					if be, ok := cc.List[0].(*ast.BinaryExpr); ok && nOmit > 0 && be.Op.String() == "==" {
+						l, rr := types.ExprString(be.X), types.ExprString(be.Y)
+						if strings.HasSuffix(l, ".Type.Kind") && strings.HasSuffix(rr, "TypeMaybe") {
+							found = true
+						}
+					}
+					return true
+				}
 				ifs, ok := n.(*ast.IfStmt)
 				if !ok || hasOmit(ifs.Body) == 0 {
 					return true
